@@ -21,7 +21,7 @@ pub fn spec() -> Spec {
     Spec {
         prop: "C09",
         level: "exploration",
-        rule: "Structure-aware fuzzing of every registered method (names from the real method table) against the real engine in-process: well-formed templates with typed mutation (boundary integers, string-typed numbers, empty/odd/non-hex/huge strings, every base64 prefix byte, truncated and bomb frames, null/array/object swaps, missing/extra fields, positional vs named), random and mutated bytecode as init code / call data, ABI-valid boundary inputs and ABI-invalid bytes to every custom and standard precompile through eth_call, eth_callMany (with Bitcoin-transaction overrides) and executed transactions, in engine states {empty, initialised, mid-block, after reorg, after clearCaches}. Oracles: process-wide panic hook (any panic while serving = violation; the shipped binary aborts), a liveness probe after requests (eth_blockNumber, a block read, and a write round that must raise the height by exactly one), logical hang witnesses (brc20_mine(k) must return with height = start + k), watchdog => inconclusive. Sanitizer pass: on one shard in eight a small worker of this check is re-executed under valgrind memcheck (every native library instrumented: RocksDB, zstd, secp256k1, the revm precompile back ends); any memcheck report = violation. The build mirrors release arithmetic (overflow checks off). Non-trivial = request that reached a handler; distinct by (method, outcome class, mutation class).",
+        rule: "Structure-aware fuzzing of every registered method (names from the real method table) against the real engine in-process: well-formed templates with typed mutation (boundary integers, string-typed numbers, empty/odd/non-hex/huge strings, long strings of mixed UTF-8 character widths (any fixed byte offset falls inside a character), every base64 prefix byte, truncated and bomb frames, null/array/object swaps, missing/extra fields, positional vs named), random and mutated bytecode as init code / call data, ABI-valid boundary inputs and ABI-invalid bytes to every custom and standard precompile through eth_call, eth_callMany (with Bitcoin-transaction overrides) and executed transactions, in engine states {empty, initialised, mid-block, after reorg, after clearCaches}. Oracles: process-wide panic hook (any panic while serving = violation; the shipped binary aborts), a liveness probe after requests (eth_blockNumber, a block read, and a write round that must raise the height by exactly one), logical hang witnesses (brc20_mine(k) must return with height = start + k), watchdog => inconclusive. Sanitizer pass: on one shard in eight a small worker of this check is re-executed under valgrind memcheck (every native library instrumented: RocksDB, zstd, secp256k1, the revm precompile back ends); any memcheck report = violation. The build mirrors release arithmetic (overflow checks off). Non-trivial = request that reached a handler; distinct by (method, outcome class, mutation class).",
         assumptions: vec![
             "the fake Bitcoin node is up: loss of the node and its documented 'Bitcoin RPC unreachable' panic are environment faults".into(),
             "brc20_mine is only asked for small counts: running time proportional to the requested count is by design".into(),
@@ -52,8 +52,31 @@ fn boundary_int(rng: &mut Rng) -> Value {
     }
 }
 
+/// A string of `bytes` to `bytes + 3` bytes made of characters of mixed UTF-8 widths (1..4 bytes), so
+/// that any fixed byte offset is likely to fall inside a character.
+fn mixed_width_string(rng: &mut Rng, bytes: usize) -> String {
+    let pool = ['a', 'Z', '7', '-', 'é', 'ß', 'Σ', '€', '漢', '\u{3000}', '😀', '𝔘'];
+    let mut s = String::new();
+    while s.len() < bytes {
+        s.push(*rng.pick(&pool));
+    }
+    s
+}
+
 fn weird_string(rng: &mut Rng) -> Value {
-    match rng.below(18) {
+    match rng.below(21) {
+        18 => {
+            let n = *rng.pick(&[31usize, 32, 63, 64, 255, 256, 300, 301, 511, 512, 1000, 1024, 4096]);
+            json!(mixed_width_string(rng, n))
+        }
+        19 => {
+            let n = rng.range(1, 1500) as usize;
+            json!(mixed_width_string(rng, n))
+        }
+        20 => {
+            let n = rng.range(250, 310) as usize;
+            json!(format!("{}{}", "a".repeat(n), mixed_width_string(rng, 40)))
+        }
         0 => json!(""),
         1 => json!("0x"),
         2 => json!("0x0"),
@@ -438,7 +461,21 @@ fn fuzz(ctx: &WorkerCtx, rep: &mut WorkerReport, rng: &mut Rng, state: &'static 
             _ => {
                 let m = rng.pick(names).clone();
                 let base = template(&m, &fz.st).unwrap_or(json!([]));
-                let (p, mc) = match rng.below(8) {
+                let (p, mc) = match rng.below(9) {
+                    8 => {
+                        // well-formed request whose identifier-like text fields are long mixed-width strings
+                        let mut b = base.clone();
+                        if let Some(o) = b.as_object_mut() {
+                            for k in ["inscription_id", "ticker"] {
+                                if o.contains_key(k) && rng.chance(2, 3) {
+                                    let pre = if rng.chance(1, 2) { "a".repeat(rng.range(200, 320) as usize) } else { String::new() };
+                                    let n = rng.range(8, 900) as usize;
+                                    o.insert(k.to_string(), json!(format!("{}{}", pre, mixed_width_string(rng, n))));
+                                }
+                            }
+                        }
+                        (b, "long-mixed-width-identifiers")
+                    }
                     0 => (base.clone(), "well-formed"),
                     1 => (to_positional(&m, &base).unwrap_or(base.clone()), "positional"),
                     2 => (json!(null), "null-params"),
